@@ -10,6 +10,9 @@ Local Open Scope Z_scope.
 (* qs = r :: ps *)
 Definition op_rn2data : opfun := fun _ qs =>
   match qs with r :: ps => Ok [qz (rn2data Qc_OF ps r)] | _ => Err (-1) end.
+(* the single-loop transcription (proved equal: C14_single_loop_is_model); qs = r :: ps *)
+Definition op_rn2data_r : opfun := fun _ qs =>
+  match qs with r :: ps => Ok [qz (rn2data_r Qc_OF (cadd Qc_OF) ps r)] | _ => Err (-1) end.
 (* zs = [k] ; qs = atol :: rs(k) ++ ps *)
 Definition op_gen_data : opfun := fun zs qs =>
   match zs, qs with
@@ -136,7 +139,6 @@ Definition op_flow : opfun := fun zs _ =>
 Definition step_nf (h : hop) : M (eres (list (list (Z * ftok)))) :=
   match h with
   | HCall (CDgDataset _ _ (Some _)) _ => step fdraw fmkgen fgseed h      (* a LIST of seeds: not a single-stream call *)
-  | HCall _ (SNpInt _) => step fdraw fmkgen fgseed h                     (* a numpy integer is no stream *)
   | HCall c s => call_nf fdraw fmkgen fgseed c s
   | _ => step fdraw fmkgen fgseed h
   end.
@@ -152,6 +154,7 @@ Definition op_flow_nf : opfun := fun zs _ =>
 
 Definition C14_ops : optable :=
   [ ("c14.rn2data"%string, op_rn2data);
+    ("c14.rn2data_r"%string, op_rn2data_r);
     ("c14.gen_data"%string, op_gen_data);
     ("c14.empi_seq"%string, op_empi_seq);
     ("c14.empi_seqs"%string, op_empi_seqs);
